@@ -18,6 +18,24 @@ import (
 var runOptChoices = []RunOpt{{Nil: true}, {}, {Dry: true}, {Always: true}, {Always: true, Dry: true}}
 
 func (o RunOpt) String() string {
+	if o.GC {
+		return "GC()"
+	}
+	if o.Repl {
+		kw := ""
+		if o.AlwaysSet {
+			kw += fmt.Sprintf(", always=%v", o.Always)
+		}
+		if o.DrySet {
+			kw += fmt.Sprintf(", dry_run=%v", o.Dry)
+		}
+		return "run(" + o.Target + kw + ")"
+	}
+	if o.Target != "" {
+		b := o
+		b.Target = ""
+		return "Run(" + o.Target + ", " + b.String() + ")"
+	}
 	switch {
 	case o.Nil:
 		return "nil"
@@ -71,15 +89,15 @@ func multiRunHistories(r *rng, nproj, n3 int) []*History {
 }
 
 type runSeg struct {
-	V, VReason, S, Exec []string
-	Rec                 map[string]string
-	Err                 string
+	V, VReason, S, U, Exec []string
+	Rec, Rec2              map[string]string
+	Err                    string
 }
 
 func splitRuns(o *Obs, n int) []runSeg {
 	segs := make([]runSeg, n)
 	for i := range segs {
-		segs[i].Rec = map[string]string{}
+		segs[i].Rec, segs[i].Rec2 = map[string]string{}, map[string]string{}
 	}
 	cur := -1
 	for _, line := range o.EventsRaw {
@@ -101,6 +119,12 @@ func splitRuns(o *Obs, n int) []runSeg {
 			segs[cur].VReason = append(segs[cur].VReason, reason)
 		case "S":
 			segs[cur].S = append(segs[cur].S, f[1])
+		case "U":
+			segs[cur].U = append(segs[cur].U, f[1])
+		case "REC2":
+			if len(f) > 2 {
+				segs[cur].Rec2[f[1]] = f[2]
+			}
 		case "REC":
 			if len(f) > 2 {
 				segs[cur].Rec[f[1]] = f[2]
@@ -123,21 +147,31 @@ func splitRuns(o *Obs, n int) []runSeg {
 	return segs
 }
 
-// runMulti plays one same-process sequence and judges it
-func runMulti(r *runner, h *History) ([]violation, *stats) {
+// runMulti plays the history's operations (fresh process each), then ONE process that loads the project once and
+// performs the sequence h.Runs on it, and judges that process
+func runMulti(r *runner, prop string, h *History) ([]violation, *stats) {
 	st := newStats()
 	st.Histories++
 	st.MultiRuns++
 	var viols []violation
 	viol := func(kind string, op int, format string, a ...any) {
 		if len(viols) < 3 {
-			viols = append(viols, violation{Kind: kind, Detail: fmt.Sprintf(format, a...), Op: op, Input: h})
+			viols = append(viols, violation{Kind: kind, Detail: fmt.Sprintf(format, a...), Op: len(h.Ops) + op, Input: h})
 		}
 	}
 	root := r.tmp("proj")
 	defer os.RemoveAll(root)
 	p := h.Proj.clone()
-	if err := p.writeAll(root); err != nil {
+	if len(h.Ops) > 0 {
+		pre := *h
+		pre.Runs = nil
+		main := r.playIn(&pre, playOpts{}, root)
+		if main.err != nil {
+			viol("harness", 0, "%v", main.err)
+			return viols, st
+		}
+		p = main.proj
+	} else if err := p.writeAll(root); err != nil {
 		viol("harness", 0, "%v", err)
 		return viols, st
 	}
@@ -158,10 +192,26 @@ func runMulti(r *runner, h *History) ([]violation, *stats) {
 	for _, t := range p.live() {
 		bodies[t.Label()] = true
 	}
+	executedBefore := map[string]bool{} // bodies executed by earlier runs of this process
+	hadGC := false
 	for i, seg := range splitRuns(o, len(h.Runs)) {
 		ro := h.Runs[i]
+		if ro.GC {
+			hadGC = true
+			st.GCs++
+			if seg.Err != "ok" {
+				viol("gc-fails", i, "GC() on the loaded project failed")
+			}
+			for l, good := range seg.Rec2 {
+				if good != "good" {
+					viol("gc-loses-live-record", i, "GC() on the same loaded project after %v removed or damaged the record of %s, which an earlier Run of this process had just written", h.Runs[:i], l)
+				}
+			}
+			continue
+		}
 		st.Builds++
 		st.Executed += len(seg.Exec)
+		always, dry := ro.effective()
 		var announced []string
 		for _, l := range seg.V {
 			if bodies[l] {
@@ -171,15 +221,15 @@ func runMulti(r *runner, h *History) ([]violation, *stats) {
 		if seg.Err != "ok" {
 			viol("same-process-run-fails", i, "run %d (%v) of the sequence failed", i, ro)
 		}
-		if ro.Dry {
+		if dry {
 			st.DryRuns++
 			if len(seg.Exec) > 0 {
-				viol("dry-executes", i, "run %d has options %v and executed bodies: %v", i, ro, seg.Exec)
+				viol("dry-executes", i, "run %d is %v (a dry run) and executed bodies: %v", i, ro, seg.Exec)
 			}
 			continue
 		}
 		if !reflect.DeepEqual(sortedCopy(seg.Exec), sortedCopy(announced)) {
-			viol("run-ignores-its-options", i, "run %d has options %v (not a dry run) on the same loaded project after %v: it announced %v as evaluating and executed the bodies %v",
+			viol("run-ignores-its-options", i, "run %d is %v (not a dry run) on the same loaded project after %v: it announced %v as evaluating and executed the bodies %v",
 				i, ro, h.Runs[:i], sortedCopy(announced), sortedCopy(seg.Exec))
 		}
 		for _, l := range seg.S {
@@ -187,10 +237,94 @@ func runMulti(r *runner, h *History) ([]violation, *stats) {
 				viol("record-not-persisted", i, "run %d (%v) reported %s as succeeded but its record is not a success record afterwards", i, ro, l)
 			}
 		}
-		if !ro.Always {
+		if !always {
 			for k, reason := range seg.VReason {
 				if reason == "always" {
-					viol("always-not-reset", i, "run %d has options %v, yet %s was evaluated for the reason \"always\"", i, ro, seg.V[k])
+					viol("always-not-reset", i, "run %d is %v, yet %s was evaluated for the reason \"always\"", i, ro, seg.V[k])
+				}
+			}
+		} else {
+			tl := h.RunTarget
+			if ro.Target != "" {
+				tl = ro.Target
+			}
+			ev := setOf(seg.V)
+			for l := range p.closure(tl) {
+				if !ev[l] {
+					viol("always-ignored", i, "run %d is %v, yet %s of its closure was not evaluated", i, ro, l)
+				}
+			}
+		}
+		// a dependent of something executed earlier in this process is not skipped
+		for _, l := range seg.U {
+			t := p.tgt(l)
+			if t == nil {
+				continue
+			}
+			for _, d := range t.Deps {
+				if executedBefore[d] {
+					viol("stale-skip-same-process", i, "run %d (%v) reported %s up to date although its dependency %s executed earlier in this process", i, ro, l, d)
+				}
+			}
+		}
+		for _, l := range seg.Exec {
+			executedBefore[l] = true
+		}
+	}
+	// C01: at the end of the process the generated files are those of a from-scratch build
+	if prop == "C01" && len(viols) == 0 {
+		targets := map[string]bool{}
+		for _, ro := range h.Runs {
+			if _, dry := ro.effective(); dry || ro.GC {
+				continue
+			}
+			if ro.Target != "" {
+				targets[ro.Target] = true
+			} else {
+				targets[h.RunTarget] = true
+			}
+		}
+		now := &Obs{}
+		scan(root, allGens(p), now)
+		for tl := range targets {
+			clean, err := r.cleanBuild(root, p, tl)
+			if err != nil || clean.Exit != exitOK {
+				viol("harness", len(h.Runs), "clean build of %s: %v", tl, err)
+				continue
+			}
+			st.CleanCompares++
+			for l := range p.closure(tl) {
+				for _, g := range p.tgt(l).Gens {
+					st.FilesCompared++
+					if now.Gens[g] != clean.Gens[g] {
+						viol("stale", len(h.Runs)-1, "after the sequence %v on one loaded project the generated file %s of %s differs from a from-scratch build of the same tree",
+							h.Runs, g, l)
+					}
+				}
+			}
+		}
+	}
+	// C14: a fresh process afterwards finds everything up to date (the collection kept what the runs had written)
+	if prop == "C14" && hadGC && len(viols) == 0 {
+		// (only after exactly ONE real run: a second real Run on the same Project works from load-time records and is
+		// outside what DESIGN §4 fixes for the history-level claims — see the observation in the report)
+		realRuns := 0
+		for _, ro := range h.Runs {
+			if _, dry := ro.effective(); !ro.GC && !dry {
+				realRuns++
+			}
+		}
+		if realRuns == 1 {
+			o2, err := r.runChild(childSpec{Root: root, Op: "build", Target: h.RunTarget}, false)
+			if err != nil {
+				viol("harness", len(h.Runs), "%v", err)
+			} else {
+				st.TwinBuilds++
+				allowed := alwaysDownstream(p, h.RunTarget)
+				for _, l := range o2.ExecStart {
+					if !allowed[l] {
+						viol("twin-differs", len(h.Runs), "after %v on one loaded project a fresh build of %s executed %s; without the collection nothing would execute", h.Runs, h.RunTarget, l)
+					}
 				}
 			}
 		}
@@ -213,6 +347,69 @@ func optionsStream() []pair {
 				a, d := dawn.VerifApplyOptions(pa, pd, opts)
 				out = append(out, pair{in, fmt.Sprintf("%d %d", b2i(a), b2i(d))})
 			}
+		}
+	}
+	return out
+}
+
+// replHistories (C13): the REPL builtin run(label, always=…, dry_run=…) with every keyword combination, alone and
+// followed by a Run with nil options
+func replHistories(r *rng) []*History {
+	p := genProj(r, 0)
+	root := p.topRoot()
+	var out []*History
+	tri := []struct{ set, val bool }{{false, false}, {true, false}, {true, true}}
+	for _, a := range tri {
+		for _, d := range tri {
+			ro := RunOpt{Repl: true, Target: root, AlwaysSet: a.set, Always: a.val, DrySet: d.set, Dry: d.val}
+			out = append(out, &History{Template: "C13 REPL: " + ro.String(), Proj: p.clone(), Runs: []RunOpt{ro}, RunTarget: root})
+			out = append(out, &History{Template: "C13 REPL: " + ro.String() + " then Run(nil)", Proj: p.clone(), Runs: []RunOpt{ro, {Nil: true}}, RunTarget: root})
+		}
+	}
+	return out
+}
+
+// multiTargetHistories (C01): earlier processes build the root; an input of a dependency changes; then ONE process
+// runs the dependency alone and afterwards the dependent (or the root)
+func multiTargetHistories(r *rng, n int) []*History {
+	var out []*History
+	for tries := 0; len(out) < n && tries < 10*n; tries++ {
+		p := genProj(r, 0)
+		g := &gen{r: r, p: p.clone(), h: &History{Proj: p, Template: "C01 same process: dependency then dependent"}, collected: map[string]bool{}}
+		t, d := g.chainPick()
+		if t == nil || len(t.Gens) == 0 || t.Always {
+			continue
+		}
+		root := g.rootOver(d)
+		g.add(g.build(root))
+		g.semanticEdit(t)
+		seq := []RunOpt{{Nil: true, Target: t.Label()}, {Nil: true, Target: d.Label()}}
+		if root != d.Label() && r.chance(50) {
+			seq = append(seq, RunOpt{Target: root})
+		}
+		g.h.Runs, g.h.RunTarget = seq, root
+		out = append(out, g.h)
+	}
+	return out
+}
+
+// gcSameProcessHistories (C14): Load → Run… → GC (→ Run) on ONE project object, fresh and after an earlier build
+func gcSameProcessHistories(r *rng, nproj int) []*History {
+	var out []*History
+	for pi := 0; pi < nproj; pi++ {
+		p := genProj(r, 0)
+		root := p.topRoot()
+		seqs := [][]RunOpt{
+			{{}, {GC: true}},
+			{{Nil: true}, {GC: true}, {}},
+			{{Always: true}, {GC: true}},
+			{{Dry: true}, {GC: true}, {}},
+			{{}, {}, {GC: true}, {GC: true}},
+		}
+		for _, s := range seqs {
+			out = append(out, &History{Template: "C14 same process (fresh project)", Proj: p.clone(), Runs: s, RunTarget: root})
+			out = append(out, &History{Template: "C14 same process (after an earlier build)", Proj: p.clone(), Ops: []Op{{Kind: "build", Target: root}},
+				Runs: append([]RunOpt{{Always: true}}, s[1:]...), RunTarget: root})
 		}
 	}
 	return out
